@@ -71,6 +71,29 @@ def fold_family(depth, tier='quick'):
     return list(dict.fromkeys(progs))
 
 
+REF_PRE = (FOLD_PRE + 'o.f = function () { "use strict"; return this === o ? "T:o" : "T:" + String(this) }; o.k = 1; var qq = "global"; '
+           'function tag(s) { "use strict"; return this === o ? "tag:o" : "tag:" + String(this) } o.tag = tag;\n')
+REF_OPERANDS = ['o.f', 'o["f"]', 'o?.f', '(o.f)', 'eval', '(eval)', 'unresolvable', 'o.k', 'o.tag', 'tag']
+REF_CONTEXTS = ['(@)()', '(@)("qq")', 'delete (@)', 'typeof (@)', '(@)`t`', 'new (@)', '(@)?.()', '(function () { var qq = "local"; return (@)("qq") })()',
+                '[(@)()]', 'void (@)()', 'delete @', 'typeof @', '(@).name']
+
+
+def ref_family():
+    """Operators that hand one of their operands through (comma, logical, conditional, grouping) x operands that are References x contexts in
+    which a Reference behaves differently from its value (callee: this / direct eval, delete, typeof of an unresolvable name, tag)."""
+    progs = []
+    lits = FOLD_LITS + ['o', 's']
+    for r in REF_OPERANDS:
+        shapes = [r]
+        for l in lits:
+            fl = _leaf_forms(l)[0]
+            shapes += [f'{fl}, {r}', f'{fl} && {r}', f'{fl} || {r}', f'{fl} ?? {r}', f'{fl} ? {r} : 0', f'{fl} ? 0 : {r}', f'({fl}, {r})', f'{fl}, {fl}, {r}']
+        for sh in shapes:
+            for c in REF_CONTEXTS:
+                progs.append(REF_PRE + 'try { print(' + c.replace('@', sh) + ') } catch (e) { print("E", e.name) } print(o.k, typeof o.f);')
+    return list(dict.fromkeys(progs))
+
+
 def dce_family(tier='quick'):
     conds = ['true', 'false', '1', '0', '!0', '1 < 2', '"a" == "a"', 'null ?? false', '""', '0n', 'void 0', '2 > 1 && 0']
     bodies = ['2;', 'var v = 2;', 'function h(){ return 1 }', 'let l = 2; l;', '{ 3; }', 'L: { break L; }', ';',
@@ -584,7 +607,7 @@ PLACE_VALS = ['0', '-0', '1', '2', 'NaN', 'undefined', 'null', '"1"', '"a"', '1n
 PLACE_CMP = ['<', '<=', '>', '>=', '==', '!=', '===', '!==']
 
 
-def place_family(tier='quick'):
+def place_family(tier='quick', operand_order=True):
     progs = []
     vals = PLACE_VALS if tier == 'thorough' else PLACE_VALS[:2] + PLACE_VALS[3:11] + PLACE_VALS[13:14]
     # (1) comparisons in branch positions (fused compare-and-branch), operands in registers / environments / globals / literals
@@ -621,6 +644,21 @@ def place_family(tier='quick'):
                 progs.append(f'(function(){{ var c = 0; {decl} try {{ {src} }} catch (e) {{ print("E", e.name) }} print("c", c); }})()')
                 progs.append(f'var c = 0; {decl} try {{ {src} }} catch (e) {{ print("E", e.name) }} print("c", c);')
     # (3) const / let placement, caching and TDZ
+    # operand order: a local is read as an operand and assigned somewhere INSIDE a later operand - directly, or nested in an assignment to
+    # something else, a property key, an argument, an array / object / template literal, a conditional, a destructuring default, a closure call
+    later = ['(x = V)', '(y = (x = V))', '(y = x = V)', '(o.p = (x = V))', '(o[x = V] = 1)', '[x = V][0]', 'id(x = V)', '(x = V, 1)', '(y += x++)', '(y = ++x)', '(t ? x = V : 0)',
+             '`${x = V}`', '(() => x = V)()', '({k: x = V}).k', '([y = (x = V)] = [])[0]', '({y = (x = V)} = {}, y)', '(y ??= (x = V))', '(o.p ||= (x = V))', 'id(...[x = V])',
+             'new C(x = V).v', '(x += V)', '(y = (x += V))', 'x++', '(y = x--)', '[x, x = V, x][2]', '(x = V) + x', 'o[(x = V, "q")]']
+    olds = ['+', '-', '*', '<', '==', '&', '**', ',', '&&', '??']
+    for lt in (later if operand_order else []):
+        for op in olds:
+            for v0, v in (('1', '5'), ('"s"', '7'), ('0', '"z"')):
+                e = f'x {op} ' + lt.replace('V', v)
+                pre = 'var y, t = true, o = {p: 0, q: 4}; function id(a) { return a } function C(a) { this.v = a }'
+                progs.append(f'(function () {{ {pre} let x = {v0}; try {{ print({e}); }} catch (e) {{ print("E", e.name) }} print(x, y, o.p); }})()')
+                progs.append(f'(function (x) {{ {pre} try {{ print({e}); }} catch (e) {{ print("E", e.name) }} print(x, y, o.p); }})({v0})')
+                progs.append(f'(function () {{ {pre} var x = {v0}; try {{ print([{e}, x][0]); }} catch (e) {{ print("E", e.name) }} print(x, y, o.p); }})()')
+                progs.append(f'(function () {{ {pre} let x = {v0}; try {{ print(id(x, {lt.replace("V", v)}), o[x] = {lt.replace("V", v)}); }} catch (e) {{ print("E", e.name) }} print(x, y, JSON.stringify(o)); }})()')
     decls = ['const K = 1;', 'let K = 1;', 'var K = 1;', 'const K = {v: 1};', 'const K = print("init") || 5;', 'class K { static v = 1 }', 'function K() { return 1 }']
     uses = ['print(typeof K, K === K);', 'function g() { return typeof K === "function" ? 1 : K } print(g(), g());', 'try { K = 2 } catch (e) { print("E", e.name) } print(typeof K);',
             'try { K++ } catch (e) { print("E", e.name) } print(typeof K);', '{ let K = 9; print(K); } print(typeof K);', 'for (let i = 0; i < 2; i++) { print(typeof K); }',
@@ -753,3 +791,64 @@ def capt_family(tier='quick'):
                         p += '\nshow();'
                     progs.append(p)
     return list(dict.fromkeys(progs))
+
+
+# ------------------------------------------------------------------------------------------------
+# prec: every expression kind in every expression / statement context (C19: printer parenthesisation, spacing, ASI)
+# ------------------------------------------------------------------------------------------------
+PREC_PRE = ('var a = function () { print("call a"); return a }; a.valueOf = function () { print("va"); return 2 }; a.toString = function () { return "A" }; a.b = 3; a.a = a; '
+            'var b = {valueOf() { print("vb"); return 3 }, toString() { return "B" }, b: 23, a: 19}; var c = {valueOf() { print("vc"); return 5 }, toString() { return "C" }, b: 29}; '
+            'var x = 1, o = {b: 1, k: 2, f() { return this === o }}, f = function () { return arguments.length }; a[Symbol.iterator] = b[Symbol.iterator] = c[Symbol.iterator] = function* () { yield 1; yield 2 };\n')
+# inner expressions (each is an expression that parses on its own)
+PREC_INNERS = ['a', '1', '-1', '1.5', '"s"', '`t${a}u`', '/r/g', 'this', 'a, b', 'x = b', 'x += b', 'a ? b : c', 'a ?? b', 'a || b', 'a && b', 'a | b', 'a ^ b', 'a & b',
+               'a == b', 'a < b', 'a in b', 'a instanceof f', 'a << b', 'a + b', 'a - b', 'a * b', 'a / b', 'a % b', 'a ** b', '-a', '+a', '!a', '~a', 'typeof a', 'void a',
+               'delete o.k', 'x++', 'x--', '++x', '--x', 'new a', 'new a()', 'new a.a()', 'new (a())', 'new (a.a)', 'a()', 'a.b', 'a[b]', 'a?.b', 'a?.()', 'a?.[b]', 'a`t`',
+               'function () { return 7 }', 'function* () {}', 'async function () {}', 'class {}', 'class extends a {}', '() => a', 'q => q', 'async () => a', 'async q => q',
+               '() => ({})', '() => { }', '{}', '{b: 1}', '{a, b}', '{[a]: 1}', '{...a}', '[]', '[a]', '[, a]', '[...a]', 'new.target', 'o.f()', '(0, o.f)()', 'a.a.a', 'a().a',
+               'a``.a', '1 .b', '1.5.b', '1e3.b', '0x10.b', '1n', 'a ? b : c ? a : b', 'a ?? (b || c)', '(a || b) ?? c', 'a - -b', 'a + +b', 'a - --x', 'a + ++x', 'x-- - a',
+               'x++ + a', '- -a', '+ +a', '- --x', '+ ++x', '!!a', 'typeof typeof a', 'a / /r/.lastIndex', 'a ** -b', '(-a) ** b', '(a, b)', '((a))', 'yield', 'await', 'async', 'let', 'of',
+               'static', 'get', 'a.in', 'a.class', 'o?.b.k', '(o?.b).k', 'import.meta']
+# outer expression contexts (@ = hole)
+PREC_OUTERS = ['@', '-@', '+@', '!@', 'typeof @', 'void @', 'delete @', '@ ** b', 'a ** @', '@ * b', 'a * @', '@ / b', 'a / @', '@ + b', 'a + @', '@ - b', 'a - @', '@ << b', 'a << @',
+               '@ < b', 'a < @', '@ in b', 'a in @', '@ instanceof f', '@ == b', 'a == @', '@ & b', 'a | @', '@ && b', 'a && @', '@ || b', 'a || @', '@ ?? b', 'a ?? @',
+               '@ ? b : c', 'a ? @ : c', 'a ? b : @', 'x = @', 'x += @', 'x ??= @', '@, b', 'a, @', 'f(@)', 'f(...@)', 'f(@, @)', 'new @', 'new @()', 'new @.a()', '@()', '@.b', '@[b]', 'a[@]',
+               '@?.b', '@?.()', '@`t`', '`t${@}u`', '[@]', '[...@]', '[@, @]', '({k: @})', '({[@]: 1})', '({...@})', '() => @', 'q => @', 'async () => @', '@++', '++@', '(@)',
+               '(@).b', '(@)()', '@ ? @ : @', '@ + @', '@ ** @', '@ = b', '[@] = [b]', '({b: @} = o)']
+# statement contexts; the completion value / prints of the script are the observation
+PREC_STMTS = ['@;', '@\nb;', 'b\n@;', 'if (@) print(1); else print(2);', 'if (x) @; else @;', 'for (@; ; ) break;', 'for (var y = @; ; ) break;', 'for (var y of @) break;', 'for (var y in @) break;',
+              'for (x of @) break;', 'for (; @; ) break;', 'for (; ; @) break;', 'while (@) break;', 'do @; while (0);', 'do @\nwhile (0);', 'L: @;', 'switch (@) { case @: print(3) }',
+              'try { throw @ } catch (e) { print(e) }', '(function () { return @ })();', '(function () { return (@) })();', '(function* () { yield @ })().next();', '(function* () { yield* @ })().next();',
+              '(async function () { await @ })();', 'var y = @;', 'var y = @, z = @;', 'let [p = @] = [];', 'let {q = @} = {};', '(function (p = @) { return p })();', '((p = @) => p)();',
+              'class K extends @ {}', 'class K { [@]() {} }', 'class K { static s = @; }', 'class K { f = @\n g = 1 }', 'x = @', '{ @ }', 'with (o) @;', 'throw @;', 'export_default']
+
+
+def _prec_prog(text):
+    return PREC_PRE + text
+
+
+def prec_family(tier='quick'):
+    """outer x inner, inner bare and parenthesised; quick: expression contexts with R = (outer) and statement contexts; thorough: + outer x outer x inner."""
+    out = []
+    outers = [o for o in PREC_OUTERS]
+    for o in outers:
+        for i in PREC_INNERS:
+            for inner in (i, '(' + i + ')'):
+                e = o.replace('@', inner)
+                out.append(_prec_prog('var R = ' + e + '; print(typeof R, String(R));'))
+                out.append(_prec_prog('try { print(String(' + e + ')) } catch (e) { print("E", e.name) }'))
+    for s in PREC_STMTS:
+        if s == 'export_default':
+            continue
+        for i in PREC_INNERS:
+            for inner in (i, '(' + i + ')'):
+                out.append(_prec_prog(s.replace('@', inner)))
+    if tier == 'thorough':
+        inn = [i for k, i in enumerate(PREC_INNERS) if k % 2 == 0]
+        for o1 in outers:
+            for o2 in outers:
+                if o1 == '@' or o2 == '@':
+                    continue
+                for i in inn:
+                    out.append(_prec_prog('try { print(String(' + o1.replace('@', o2.replace('@', i)) + ')) } catch (e) { print("E", e.name) }'))
+                    out.append(_prec_prog('try { print(String(' + o1.replace('@', '(' + o2.replace('@', i) + ')') + ')) } catch (e) { print("E", e.name) }'))
+    return list(dict.fromkeys(out))
